@@ -534,6 +534,11 @@ func (s *selectClause) addCrosshiftExpr(fields core.Fields, e *sqlparser.FuncExp
 		if err != nil {
 			return nil, err
 		}
+		if interval >= limit-i {
+			// This was the last shift. Stop here rather than relying on the loop
+			// condition, because i + interval may not fit into a time.Duration.
+			break
+		}
 	}
 
 	return fields, nil
